@@ -155,7 +155,7 @@ func (p *c20Peer) putAttrs(b *c07B, k byte, pth string) {
 		size = uint64(len(p.files[pth]))
 	}
 	b.word("attrflags", c07AttrSize|c07AttrUIDs|c07AttrPerm|c07AttrTimes|c07AttrExt)
-	b.u64(size).u32(1000).u32(1000).word("perm", perm).u32(1000000000).u32(1000000000)
+	b.word("size-hi", uint32(size>>32)).word("size-lo", uint32(size)).u32(1000).u32(1000).word("perm", perm).u32(1000000000).u32(1000000000)
 	b.length("extcount", 1).str("exttype", "x@y").str("extdata", "z")
 }
 
@@ -1000,6 +1000,10 @@ func c20Mutations(rep c07Pkt, quick, allBodies bool) []*c20Mut {
 				vals = append(vals, t<<12|0o644)
 			}
 			vals = append(vals, 0, 1<<32-1, 0o7777, 1<<16|0o100644)
+		case "size-hi": // the file size a server claims: 2^32, 2^40, 2^62, 2^63 (negative as int64), 2^64-1
+			vals = []uint32{1, 1 << 8, 1 << 30, 1 << 31, 1<<32 - 1}
+		case "size-lo":
+			vals = []uint32{1 << 26, 1<<31 - 1, 1 << 31, 1<<32 - 1}
 		default: // attribute flags: each defined bit cleared, undefined bits set, none, all
 			for _, bit := range []uint32{c07AttrSize, c07AttrUIDs, c07AttrPerm, c07AttrTimes, c07AttrExt} {
 				vals = append(vals, w.val&^bit)
